@@ -120,10 +120,13 @@ class Real:
 
     def compute(self, stat, gear):
         """('value', [(kind, grade)...]) or ('raises', message)"""
+        t = time.perf_counter()
         try:
             res = quiet(self.calc.compute, stat, gear)
         except ValueError as e:
+            self.last_seconds = time.perf_counter() - t
             return ("raises", str(e)), None
+        self.last_seconds = time.perf_counter() - t
         return ("value", [[kind_of(b), str(b.grade)] for b in res]), res
 
 
@@ -202,15 +205,11 @@ def main(ck: Check):
     repo = GearRepository()
     real = Real()
     n_gears = 2 if quick else 12
-    n_sampled = 400 if quick else 2500
-    n_corr_per_gear = 500 if quick else 1500
+    n_sampled = 120 if quick else 500          # per size (3 kinds, 4 kinds) and gear
+    n_corr_per_gear = 500 if quick else 1200
+    pert_seconds = 3.0 if quick else 12.0      # time box of the perturbed stats per gear
+    slow = 0.05                                # cases slower than this on the real code are not sent to Lean
     gears, cell_sizes = choose_gears(repo, rng, n_gears)
-
-    lean = ck.locked()
-    lean.__enter__()
-    proved = ck.prove("Simaple.Props.C18")
-    if ck.tier == "thorough" and proved:
-        ck.leanchecker(["Simaple.Props.C18"])
 
     # ------------------------------------------------------------------ the property on the real code
     t_direct = time.time()
@@ -219,6 +218,9 @@ def main(ck: Check):
     per_size = {1: 0, 2: 0, 3: 0, 4: 0}
     per_gear = {}
     rejected = 0
+    perturbed = perturbed_answered = skipped_slow = 0
+    slowest = 0.0
+    truncated = False
     samples = []
     corr_cases = []            # (gear, stat, python answer) reused for the correspondence
     data_assumption_breaks = []
@@ -228,7 +230,16 @@ def main(ck: Check):
         n_here = 0
         cases_here = []
         for opts in option_sets(meta, rng, n_sampled):
-            stat = real.observed(meta, opts)
+            if ck.time_left() < 0.4 * ck.budget_s:
+                truncated = True            # keep time for the proofs and the model runs
+                break
+            try:
+                stat = real.observed(meta, opts)
+            except ValueError as e:
+                if len(ck.failing) < 40:
+                    ck.add_failing({"what": "calculate_improvement raises for a valid grade", "gear": gname,
+                                    "gear_id": meta.id, "options": [[k.value, g] for k, g in opts], "raised": str(e)})
+                continue
             if not integral(stat) or not only_obs_fields(stat):
                 data_assumption_breaks.append({"gear": gname, "options": [(k.value, g) for k, g in opts]})
                 continue
@@ -251,21 +262,30 @@ def main(ck: Check):
                             "returned": ans[1], "defects": bad}
             if item is not None and len(ck.failing) < 40:
                 ck.add_failing(item)
-            cases_here.append((gear, stat, ans, [[k.value, g] for k, g in opts]))
+            cases_here.append((gear, stat, ans, [[k.value, g] for k, g in opts], real.last_seconds))
+            slowest = max(slowest, real.last_seconds)
             if len(samples) < 4 and len(opts) >= 2 and n_here % 977 == 5:
                 samples.append({"gear": gname, "options": [[k.value, g] for k, g in opts],
                                 "observed": stat.short_dict(), "returned": ans[1]})
-        # perturbed observed stats: mostly not a sum of options; whatever is returned must be sound
+        # perturbed observed stats: mostly not a sum of options; whatever is returned must be sound.
+        # An unsolvable STR/DEX/INT/LUK remainder makes the real search exponential (seconds per call when all
+        # four stats are large), so the bases are 1-2-kind stats and the loop is time boxed.
         n_pert = 300 if quick else 1500
+        bases = [c[1] for c in cases_here if len(c[3]) <= 2]
+        t_pert = time.time()
         for i in range(n_pert):
-            base = rng.choice(cases_here)[1]
+            if time.time() - t_pert > pert_seconds:
+                break
+            base = rng.choice(bases)
             d = {f: getattr(base, f) for f in OBS_FIELDS}
             mode = i % 4
             if mode == 0:
                 f = rng.choice(["STR", "DEX", "INT", "LUK"]); d[f] = max(0, d[f] + rng.choice([-2, -1, 1, 2, 3]))
             elif mode == 1:
                 for f in ("STR", "DEX", "INT", "LUK"):
-                    d[f] = rng.choice([0, 0, rng.randint(0, 60)])
+                    d[f] = 0
+                for f in rng.sample(["STR", "DEX", "INT", "LUK"], rng.randint(1, 2)):
+                    d[f] = rng.randint(1, 60)
             elif mode == 2:
                 f = rng.choice(SINGLE_FIELDS); d[f] = max(0, d[f] + rng.choice([-1, 1, 2, 30]))
             else:
@@ -276,20 +296,35 @@ def main(ck: Check):
             stat = Stat(**d)
             ans, res = real.compute(stat, gear)
             evaluations += 1
+            perturbed += 1
+            slowest = max(slowest, real.last_seconds)
             if ans[0] == "value":
+                perturbed_answered += 1
                 bad = soundness_defects(real, gear, stat, res)
                 if bad and len(ck.failing) < 40:
                     ck.add_failing({"what": "answer on an arbitrary observed stat is not sound", "gear": gname,
                                     "gear_id": meta.id, "observed": stat.short_dict(), "returned": ans[1],
                                     "defects": bad})
-            cases_here.append((gear, stat, ans, None))
+            cases_here.append((gear, stat, ans, None, real.last_seconds))
         per_gear[gname] = n_here
-        # correspondence sample: all 1-kind sets, then a seeded sample of the rest
+        # correspondence sample: all 1-kind sets, then a seeded sample of the rest (3-4-kind sets and perturbed
+        # stats first: they exercise the search most)
         ones = [c for c in cases_here if c[3] is not None and len(c[3]) == 1]
-        rest = [c for c in cases_here if not (c[3] is not None and len(c[3]) == 1)]
-        rng.shuffle(rest)
-        corr_cases += ones + rest[:n_corr_per_gear]
+        hard = [c for c in cases_here if (c[3] is None or len(c[3]) >= 3) and c[4] < slow]
+        twos = [c for c in cases_here if c[3] is not None and len(c[3]) == 2 and c[4] < slow]
+        skipped_slow += sum(1 for c in cases_here if c[4] >= slow)
+        rng.shuffle(hard)
+        rng.shuffle(twos)
+        hard = hard[: n_corr_per_gear // 2]
+        corr_cases += [c[:4] for c in ones + hard + twos[: n_corr_per_gear - len(hard)]]
     t_direct = time.time() - t_direct
+
+    # ------------------------------------------------------------------ proofs (Lean lock held from here)
+    lean = ck.locked()
+    lean.__enter__()
+    proved = ck.prove("Simaple.Props.C18")
+    if ck.tier == "thorough" and proved:
+        ck.leanchecker(["Simaple.Props.C18"])
 
     # ------------------------------------------------------------------ correspondence: model vs code
     reqs, expect = [], []
@@ -320,9 +355,12 @@ def main(ck: Check):
                 add({"fn": "bonus_improve", "meta": mj, "kind": k.value, "grade": str(g)}, py, "calculate_improvement")
     builder = SDILTableBuilder()
     for gear in gears:
-        table = builder.build(gear)
-        add({"fn": "bonus_table", "meta": meta_json(gear.meta)},
-            [[[str(x) for x in table[t][g].value] for g in range(8)] for t in _stat_types], "SDILTableBuilder.build")
+        try:
+            table = builder.build(gear)
+            py = [[[str(x) for x in table[t][g].value] for g in range(8)] for t in _stat_types]
+        except ValueError as e:
+            py = {"raises": str(e)}
+        add({"fn": "bonus_table", "meta": meta_json(gear.meta)}, py, "SDILTableBuilder.build")
     for i in range(40 if quick else 400):
         gs = rng.choice([[5, 4, 6, 3, 7], [5, 4, 6, 3, 2, 1, 7]])
         left = rng.randint(0, 4); sb = rng.randint(1, 14); db = rng.randint(1, 7)
@@ -389,6 +427,11 @@ def main(ck: Check):
         "option_sets_per_gear": per_gear,
         "option_sets_by_size": per_size,
         "valid_sets_rejected": rejected,
+        "exploration_truncated_by_time_budget": truncated,
+        "perturbed_stats": perturbed,
+        "perturbed_stats_answered": perturbed_answered,
+        "slowest_real_compute_s": round(slowest, 3),
+        "cases_too_slow_for_the_lean_sample": skipped_slow,
         "gear_cells_in_repository": cell_sizes,
         "model_vs_code_requests": len(reqs),
         "model_vs_code_disagreements": disagreements,
